@@ -20,12 +20,29 @@ type Finding struct {
 // Open tells whether the finding is a listed, unrepaired defect.
 func (f *Finding) Open() bool { return f.Status == "open" }
 
-// Matches tells whether a violation signature is this finding.
+// Matches tells whether a violation signature is this finding. The listed
+// signature is matched exactly; a '*' in it matches any run of characters.
 func (f *Finding) Matches(sig string) bool {
-	if strings.HasSuffix(f.Signature, "*") {
-		return strings.HasPrefix(sig, strings.TrimSuffix(f.Signature, "*"))
+	if !strings.Contains(f.Signature, "*") {
+		return sig == f.Signature
 	}
-	return sig == f.Signature
+	parts := strings.Split(f.Signature, "*")
+	if !strings.HasPrefix(sig, parts[0]) {
+		return false
+	}
+	rest := sig[len(parts[0]):]
+	for i := 1; i < len(parts); i++ {
+		p := parts[i]
+		if i == len(parts)-1 {
+			return strings.HasSuffix(rest, p)
+		}
+		k := strings.Index(rest, p)
+		if k < 0 {
+			return false
+		}
+		rest = rest[k+len(p):]
+	}
+	return true
 }
 
 // LoadFindings reads the entries for one property.
